@@ -1,0 +1,286 @@
+//go:build verif
+
+package ysgo
+
+import (
+	"fmt"
+	"io"
+	"math"
+	"sort"
+	"strconv"
+	"strings"
+
+	"github.com/remieven/ysgo/internal/rng"
+	"github.com/remieven/ysgo/internal/tree"
+	"github.com/remieven/ysgo/variable"
+)
+
+// VerifDumpDialogue parses the readers with tree.FromReaders and returns a canonical
+// s-expression of the resulting dialogue (the encoding used by the verification harness).
+func VerifDumpDialogue(readers ...io.Reader) (dump string, err error) {
+	dialogue, err := tree.FromReaders(readers...)
+	if err != nil {
+		return "", err
+	}
+	var b strings.Builder
+	b.WriteString("(")
+	for i, node := range dialogue.Nodes {
+		if i > 0 {
+			b.WriteString(" ")
+		}
+		verifDumpNode(&b, &node)
+	}
+	b.WriteString(")")
+	return b.String(), nil
+}
+
+// VerifNewRNGProbe creates the RNG a runner would create for seed and returns its first n
+// dice(sides) draws, so the harness can compare seed derivation with its own.
+func VerifNewRNGProbe(seed string, sides, n int) ([]int, error) {
+	r, err := rng.NewRNG(seed)
+	if err != nil {
+		return nil, err
+	}
+	out := make([]int, n)
+	for i := range out {
+		out[i] = r.IntBetween(1, sides)
+	}
+	return out, nil
+}
+
+func verifQuote(b *strings.Builder, s string) {
+	b.WriteByte('"')
+	for _, c := range s {
+		switch {
+		case c == '"':
+			b.WriteString(`\"`)
+		case c == '\\':
+			b.WriteString(`\\`)
+		case c == '\n':
+			b.WriteString(`\n`)
+		case c == '\r':
+			b.WriteString(`\r`)
+		case c == '\t':
+			b.WriteString(`\t`)
+		case c >= 32 && c < 127:
+			b.WriteRune(c)
+		default:
+			b.WriteString(`\u{` + strconv.FormatInt(int64(c), 16) + `}`)
+		}
+	}
+	b.WriteByte('"')
+}
+
+func verifDumpNode(b *strings.Builder, node *tree.Node) {
+	b.WriteString(`("node" (`)
+	keys := make([]string, 0, len(node.Headers))
+	for k := range node.Headers {
+		keys = append(keys, k)
+	}
+	sort.Strings(keys)
+	for i, k := range keys {
+		if i > 0 {
+			b.WriteString(" ")
+		}
+		b.WriteString("(")
+		verifQuote(b, k)
+		b.WriteString(" ")
+		verifQuote(b, node.Headers[k])
+		b.WriteString(")")
+	}
+	b.WriteString(") ")
+	verifDumpStatements(b, node.Statements)
+	b.WriteString(")")
+}
+
+func verifDumpStatements(b *strings.Builder, statements []*tree.Statement) {
+	b.WriteString("(")
+	for i, s := range statements {
+		if i > 0 {
+			b.WriteString(" ")
+		}
+		verifDumpStatement(b, s)
+	}
+	b.WriteString(")")
+}
+
+var verifInPlaceNames = map[int]string{
+	tree.AssignmentInPlaceOperator: "=", tree.MultiplicationInPlaceOperator: "*=", tree.DivisionInPlaceOperator: "/=",
+	tree.ModuloInPlaceOperator: "%=", tree.AdditionInPlaceOperator: "+=", tree.SubtractionInPlaceOperator: "-=",
+}
+
+var verifBinaryNames = map[int]string{
+	tree.MultiplicationBinaryOperator: "*", tree.DivisionBinaryOperator: "/", tree.ModuloBinaryOperator: "%",
+	tree.AdditionBinaryOperator: "+", tree.SubtractionBinaryOperator: "-", tree.LessThanEqualsBinaryOperator: "<=",
+	tree.GreaterThanEqualsBinaryOperator: ">=", tree.LessBinaryOperator: "<", tree.GreaterBinaryOperator: ">",
+	tree.EqualsBinaryOperator: "==", tree.NotEqualsBinaryOperator: "!=", tree.AndBinaryOperator: "and",
+	tree.OrBinaryOperator: "or", tree.XorBinaryOperator: "xor",
+}
+
+func verifDumpLine(b *strings.Builder, l *tree.LineStatement) {
+	if l == nil {
+		b.WriteString(`("nil-line")`)
+		return
+	}
+	b.WriteString(`("line" (`)
+	if l.Text != nil {
+		for i, e := range l.Text.Elements {
+			if i > 0 {
+				b.WriteString(" ")
+			}
+			if e.Expression != nil && e.Text == "" {
+				b.WriteString(`("e" `)
+				verifDumpExpression(b, e.Expression)
+				b.WriteString(")")
+			} else {
+				b.WriteString(`("t" `)
+				verifQuote(b, e.Text)
+				b.WriteString(")")
+			}
+		}
+	}
+	b.WriteString(") ")
+	if l.Condition != nil {
+		verifDumpExpression(b, l.Condition)
+	} else {
+		b.WriteString("()")
+	}
+	b.WriteString(" (")
+	for i, t := range l.Tags {
+		if i > 0 {
+			b.WriteString(" ")
+		}
+		verifQuote(b, t)
+	}
+	b.WriteString("))")
+}
+
+func verifDumpStatement(b *strings.Builder, s *tree.Statement) {
+	switch {
+	case s == nil:
+		b.WriteString(`("nil-statement")`)
+	case s.LineStatement != nil:
+		verifDumpLine(b, s.LineStatement)
+	case s.ShortcutOptionStatement != nil:
+		b.WriteString(`("opts"`)
+		for _, o := range s.ShortcutOptionStatement.Options {
+			b.WriteString(` ("opt" `)
+			verifDumpLine(b, o.LineStatement)
+			b.WriteString(" ")
+			verifDumpStatements(b, o.Statements)
+			b.WriteString(")")
+		}
+		b.WriteString(")")
+	case s.SetStatement != nil:
+		b.WriteString(`("set" `)
+		verifQuote(b, s.SetStatement.VariableID)
+		b.WriteString(" ")
+		verifQuote(b, verifInPlaceNames[s.SetStatement.InPlaceOperator])
+		b.WriteString(" ")
+		verifDumpExpression(b, s.SetStatement.Expression)
+		b.WriteString(")")
+	case s.JumpStatement != nil:
+		b.WriteString(`("jump" `)
+		verifDumpExpression(b, s.JumpStatement.Expression)
+		b.WriteString(")")
+	case s.IfStatement != nil:
+		b.WriteString(`("if"`)
+		for _, c := range s.IfStatement.Clauses {
+			b.WriteString(` ("clause" `)
+			verifDumpExpression(b, c.Condition)
+			b.WriteString(" ")
+			verifDumpStatements(b, c.Statements)
+			b.WriteString(")")
+		}
+		b.WriteString(")")
+	case s.CommandStatement != nil:
+		b.WriteString(`("cmd"`)
+		for _, e := range s.CommandStatement.Elements {
+			b.WriteString(" ")
+			verifDumpExpression(b, e.Expression)
+		}
+		b.WriteString(")")
+	case s.CallStatement != nil:
+		b.WriteString(`("call" `)
+		verifDumpCall(b, s.CallStatement.FunctionCall)
+		b.WriteString(")")
+	case s.DeclareStatement != nil:
+		b.WriteString(`("declare" `)
+		verifQuote(b, s.DeclareStatement.VariableID)
+		b.WriteString(" ")
+		verifDumpExpression(b, s.DeclareStatement.Value)
+		b.WriteString(")")
+	default:
+		b.WriteString(`("empty-statement")`)
+	}
+}
+
+func verifDumpCall(b *strings.Builder, c *tree.FunctionCall) {
+	if c == nil {
+		b.WriteString(`"nil-call" ()`)
+		return
+	}
+	verifQuote(b, c.FunctionID)
+	b.WriteString(" (")
+	for i, a := range c.Arguments {
+		if i > 0 {
+			b.WriteString(" ")
+		}
+		verifDumpExpression(b, a)
+	}
+	b.WriteString(")")
+}
+
+func verifDumpValue(b *strings.Builder, v *variable.Value) {
+	switch {
+	case v.Number != nil:
+		fmt.Fprintf(b, `("num" %d)`, math.Float64bits(*v.Number))
+	case v.Boolean != nil:
+		if *v.Boolean {
+			b.WriteString(`("bool" 1)`)
+		} else {
+			b.WriteString(`("bool" 0)`)
+		}
+	case v.String != nil:
+		b.WriteString(`("str" `)
+		verifQuote(b, *v.String)
+		b.WriteString(")")
+	default:
+		b.WriteString(`("null")`)
+	}
+}
+
+func verifDumpExpression(b *strings.Builder, e *tree.Expression) {
+	switch {
+	case e == nil:
+		b.WriteString(`("nil-expression")`)
+	case e.VariableID != nil:
+		b.WriteString(`("var" `)
+		verifQuote(b, *e.VariableID)
+		b.WriteString(")")
+	case e.FunctionCall != nil:
+		b.WriteString(`("fn" `)
+		verifDumpCall(b, e.FunctionCall)
+		b.WriteString(")")
+	case e.Value != nil:
+		verifDumpValue(b, e.Value)
+	case e.NegativeExpression != nil:
+		b.WriteString(`("neg" `)
+		verifDumpExpression(b, e.NegativeExpression)
+		b.WriteString(")")
+	case e.NotExpression != nil:
+		b.WriteString(`("not" `)
+		verifDumpExpression(b, e.NotExpression)
+		b.WriteString(")")
+	case e.Operator != nil:
+		b.WriteString(`("bin" `)
+		verifQuote(b, verifBinaryNames[*e.Operator])
+		b.WriteString(" ")
+		verifDumpExpression(b, e.LeftOperand)
+		b.WriteString(" ")
+		verifDumpExpression(b, e.RightOperand)
+		b.WriteString(")")
+	default:
+		b.WriteString(`("null")`)
+	}
+}
